@@ -1161,3 +1161,42 @@ func (e *LogEntry) IsWrite() bool {
 
 // StateAt returns (without copying) the object as it was when the log had seq entries.
 func (s *Store) StateAt(seq int, k ObjKey) map[string]any { return s.at(seq, k) }
+
+// KeysOfEver returns the keys of every object of a group kind that ever existed.
+func (s *Store) KeysOfEver(gk schema.GroupKind) []ObjKey {
+	var keys []ObjKey
+	for k := range s.hist {
+		if k.Group == gk.Group && k.Kind == gk.Kind {
+			keys = append(keys, k)
+		}
+	}
+	sort.Slice(keys, func(i, j int) bool { return keys[i].String() < keys[j].String() })
+	return keys
+}
+
+// VersionsBetween returns every version object k had while the log position
+// was in [from, to] (the version current at `from` plus all later ones up to `to`).
+func (s *Store) VersionsBetween(k ObjKey, from, to int) []map[string]any {
+	var out []map[string]any
+	var cur map[string]any
+	for _, e := range s.hist[k] {
+		if e.seq < from {
+			cur = e.obj
+			continue
+		}
+		if e.seq > to {
+			break
+		}
+		if cur != nil {
+			out = append(out, cur)
+			cur = nil
+		}
+		if e.obj != nil {
+			out = append(out, e.obj)
+		}
+	}
+	if cur != nil {
+		out = append(out, cur)
+	}
+	return out
+}
